@@ -14,7 +14,8 @@ EXPLANATION = (
     "trimmed line of the comment text of a leading trivia token (backward walk through iterator adaptors and closures), "
     "a match returns Skip / sets formatting_disabled true|false in the returned Context, and formatting_disabled "
     "makes should_format_node return Skip first. (R-RANGE(order)) NotInRange / Normal are answered only in blocks dominated by "
-    "the exit of the leading-comment scan: an ignore directive wins over the formatting range. Not decided: the position of the reproduced slice in the output.")
+    "the exit of the leading-comment scan: an ignore directive wins over the formatting range. Not decided: the position of the reproduced slice in the output."
+    "Later rounds: (R-SORTGUARD member walk) the statements shown to should_format_node are the items of an iterator over the whole require group.")
 ASSUMPTIONS = ["to_owned/clone of a full_moon node reproduces its tokens and trivia verbatim",
                "rustc MIR and Instance::try_resolve are trusted"]
 
